@@ -320,7 +320,40 @@ def rule_f(ctx, out):
         raise AnalysisError(f"only {n} configurations evaluated")
 
 
+def rule_g(ctx, out):
+    """Lower bounds count an instruction that is needed again only when it has to be *duplicated*: number_instr_needed, meeting an
+    instruction that was already visited, charges one more instruction exactly when the earlier visit and this one are both as a
+    direct (stack) operand — a visit as a mere ordering predecessor costs nothing — and records `direct` if either visit was.  The
+    decision table of that branch is evaluated for the four combinations; one extra instruction per ordering predecessor makes a lower
+    bound exceed the position the instruction has in a realizing sequence (min_length > init_progr_len, empty position windows)."""
+    from ..core.interp import ModuleInterp
+    from ..core.minieval import Unsupported, Raised
+    f = ctx.func("smt_encoding.instructions.instruction_bounds_with_dependencies.number_instr_needed")
+    if len(f.params) < 4:
+        raise AnalysisError("number_instr_needed: signature changed")
+    mi = ModuleInterp(ctx, max_steps=20000)
+    n = 0
+    for was in (False, True):
+        for now in (False, True):
+            repeated = {"I": was}
+            try:
+                got = mi.call(f, "I", now, {"I": 3}, repeated, {"I": {}}, {}, {"I": []}, {})
+            except (Raised, Unsupported) as e:
+                raise AnalysisError(f"number_instr_needed: the already-visited branch cannot be evaluated abstractly: {e}")
+            n += 1
+            want = 1 if (was and now) else 0
+            if got == want and repeated.get("I") == (was or now):
+                out.ok({"visited_before_as_direct": was, "visited_now_as_direct": now, "charged": got, "recorded": repeated.get("I")})
+            else:
+                out.bad(f"revisit-charge:{'direct' if was else 'ordering'}-then-{'direct' if now else 'ordering'}", f"number_instr_needed charges {got} for an instruction "
+                        f"visited before as {'a direct operand' if was else 'an ordering predecessor'} and now as {'a direct operand' if now else 'an ordering predecessor'} "
+                        f"(recorded: {repeated.get('I')}); a duplication is needed only when both visits are direct (charge {want}, record {was or now})", where(f))
+    if n < 4:
+        raise AnalysisError("number_instr_needed: decision table incomplete")
+
+
 RULES = [
+    ("C16.g", "a revisited instruction is charged only when it must be duplicated", 4, rule_g),
     ("C16.f", "upper-bound start values admit every realizing sequence", 15, rule_f),
     ("C16.e", "store-selecting predicates cover MSTORE8", 8, rule_e),
     ("C16.d", "the folding discount is counted once per expression", 2, rule_d),
